@@ -3,10 +3,41 @@ import VotelibDriver.C09
 import VotelibDriver.C01
 import VotelibDriver.C02
 import VotelibDriver.C05
+import VotelibDriver.C13
+import VotelibModel.ShapeCompose
 open Lean
 namespace VL.Drv.C08
+open VL VL.Convert
+
+/-- rank item of harness/families.py: a candidate id, or a list of ids (shared rank, sorted) -/
+def pItemL (j : Json) : Except String RankItem :=
+  match j with
+  | .arr a => do pure (.shared (← a.toList.mapM C13.pNat))
+  | _ => do pure (.one (← C13.pNat j))
+
+def pRanked (j : Json) : Except String RProfile := do
+  (← C13.pArr j).mapM (C13.pPair (fun b => do (← C13.pArr b).mapM pItemL) jsonRat)
+
+def pApprovalL (j : Json) : Except String AProfile := do
+  (← C13.pArr j).mapM (C13.pPair (fun b => do (← C13.pArr b).mapM C13.pNat) jsonRat)
+
+/-- ops of the composed evaluators (VotelibModel/ShapeCompose.lean) -/
+def own (op : String) (j : Json) : Option (Except String Json) :=
+  match op with
+  | "positional_plurality" => some do
+    let sc ← C13.pScorer (← j.getObjVal? "scorer")
+    let p ← pRanked (← j.getObjVal? "votes")
+    let n ← j.getObjValAs? Nat "n"
+    pure (exceptJson slotsJson (Shape.positionalPlurality sc p n))
+  | "approval_plurality" => some do
+    let split ← j.getObjValAs? Bool "split"
+    let p ← pApprovalL (← j.getObjVal? "votes")
+    let n ← j.getObjValAs? Nat "n"
+    pure (exceptJson slotsJson (Shape.approvalPlurality split p n))
+  | _ => none
+
 /-- the C08 correspondence re-uses the handlers of the properties owning the models -/
-def handlers : List Handler := [C09.handle, C01.handle, C02.handle, C05.handle]
+def handlers : List Handler := [own, C09.handle, C01.handle, C02.handle, C05.handle]
 
 def handle (op : String) (j : Json) : Option (Except String Json) :=
   handlers.firstM (fun (h : Handler) => h op j)
